@@ -10,7 +10,9 @@ import (
 	"go/types"
 	"os"
 	"path/filepath"
+	"regexp"
 	"sort"
+	"strconv"
 	"strings"
 	"time"
 
@@ -129,6 +131,14 @@ func Load(o LoadOpts) (*Program, error) {
 	// helpers that do not exist in the pinned tree are expanded at their call sites (inline.go); a rewritten tree that
 	// does not load is abandoned
 	if frozen, ferr := frozenNames(); ferr == nil && !o.NoInline {
+		for k := range renamedFuncs {
+			delete(renamedFuncs, k)
+		}
+		for n, old := range detectRenames(pkgs, frozen) {
+			renamedFuncs[n] = old
+			p.Inline.Renamed = append(p.Inline.Renamed, short(old)+" is now "+n[strings.LastIndex(n, ".")+1:])
+		}
+		sort.Strings(p.Inline.Renamed)
 		ov := map[string][]byte{}
 		for k, v := range o.Overlay {
 			ov[k] = v
@@ -150,6 +160,12 @@ func Load(o LoadOpts) (*Program, error) {
 				ov2[k] = v
 			}
 			pk2, n2, err2 := loadOnce(ov2)
+			if err2 != nil && strings.Contains(err2.Error(), "imported and not used") {
+				// removing a fully expanded helper can leave an import of its file unused: keep the import for its effects only
+				if fixed := blankUnusedImports(ov2, err2.Error()); fixed {
+					pk2, n2, err2 = loadOnce(ov2)
+				}
+			}
 			if err2 != nil {
 				p.Inline.Fallback = "the tree with helpers expanded does not load: " + clip(err2.Error(), 600)
 				if os.Getenv("KVET_INLINE_DEBUG") != "" {
@@ -272,12 +288,34 @@ func (p *Program) Pos(pos token.Pos) string {
 
 // short strips the module path from a qualified name.
 func short(s string) string {
+	for n, old := range renamedFuncs {
+		if strings.Contains(s, n) {
+			s = strings.ReplaceAll(s, n, old)
+		}
+	}
 	s = strings.ReplaceAll(s, modPath+"/", "")
 	return strings.ReplaceAll(s, modPath, "go-kardia")
 }
 
 // Func resolves "pkg", "Recv" (may be ""), "name" to the SSA function, nil if absent.
 func (p *Program) Func(pkg, recv, name string) *ssa.Function {
+	if f := p.func0(pkg, recv, name); f != nil {
+		return f
+	}
+	// the function may have been renamed (names.go): look it up under its current name
+	full := modPath + "/" + pkg
+	if pkg == "" {
+		full = modPath
+	}
+	for n, old := range renamedFuncs {
+		if old == full+"."+name || old == "(*"+full+"."+recv+")."+name || old == "("+full+"."+recv+")."+name {
+			return p.func0(pkg, recv, n[strings.LastIndex(n, ".")+1:])
+		}
+	}
+	return nil
+}
+
+func (p *Program) func0(pkg, recv, name string) *ssa.Function {
 	sp := p.SSAPkgs[modPath+"/"+pkg]
 	if pkg == "" {
 		sp = p.SSAPkgs[modPath]
@@ -388,4 +426,37 @@ func (p *Program) Global(pkg, name string) *ssa.Global {
 	}
 	g, _ := sp.Members[name].(*ssa.Global)
 	return g
+}
+
+// blankUnusedImports rewrites `"p" imported and not used` imports of overlay files to blank imports.
+func blankUnusedImports(ov map[string][]byte, errText string) bool {
+	re := regexp.MustCompile(`(?m)(/[^\s:]+\.go):(\d+):\d+: "[^"]+" imported (?:as \S+ )?and not used`)
+	fixed := false
+	for _, m := range re.FindAllStringSubmatch(errText, -1) {
+		src, ok := ov[m[1]]
+		if !ok {
+			continue
+		}
+		ln, _ := strconv.Atoi(m[2])
+		lines := strings.Split(string(src), "\n")
+		if ln < 1 || ln > len(lines) {
+			continue
+		}
+		l := lines[ln-1]
+		i := strings.Index(l, `"`)
+		if i < 0 {
+			continue
+		}
+		head := strings.TrimSpace(l[:i])
+		switch {
+		case head == "" || head == "import":
+			lines[ln-1] = l[:i] + "_ " + l[i:]
+		default: // named import: replace the name
+			j := strings.LastIndex(l[:i], head[strings.LastIndex(head, " ")+1:])
+			lines[ln-1] = l[:j] + "_ " + l[i:]
+		}
+		ov[m[1]] = []byte(strings.Join(lines, "\n"))
+		fixed = true
+	}
+	return fixed
 }
